@@ -113,6 +113,15 @@ PROPS = {
         "only components that Eq compares; cmp_slice consults both lengths and both contents; sign-dependent exporters read the sign.",
         "technique": "interprocedural field read-set analysis over MIR (necessity rule: a result that depends on a component must read it)",
     },
+    "C08": {
+        "clauses": [r5check.check_conversions, r5check.check_tryfrom_err_carries_input, r5check.check_float_guard, fam("Add")],
+        "not_decided": "digit accumulation / overflow position in BigUint::to_uN, high_bits_to_u64 and float rounding (ties-to-even, infinity cut-off), from_f64's shift arithmetic, two's-complement magnitude arithmetic of From<iN>",
+        "level_text": "Decides the sign-gate and ownership clauses for every input: BigInt::to_{i64,i128,u64,u128} return Some(a) exactly when a fits, including the MIN edge "
+        "(|a| compared with 2^63 / 2^127 read from MIR), negative -> None for unsigned targets, zero -> Some(0); BigUint::from_iN rejects negatives; "
+        "TryFrom<BigInt> for BigUint and all 24 by-value TryFrom impls for primitives hand the original value back in the error; BigUint::from_f64 "
+        "rejects NaN/infinities before decoding and negative values after.",
+        "technique": "abstract interpretation over the sign domain (R5) + MIR def-use checks of the error closures + guard dominance",
+    },
     "C09": {
         "clauses": [r9.check_iterators, r9.check_sign_readers, r5check.check_constructors, r1.check_biguint_normal_form],
         "not_decided": "byte regrouping arithmetic, two's-complement byte loops, iterator value sequences beyond the read-set condition; importer normalisation (planned R1)",
